@@ -454,6 +454,37 @@ Proof.
     cbn [flat_map]. rewrite Hstep, Hres. reflexivity.
 Qed.
 
+(* the byte-stream form of the round trip: the concatenation of the encodings of ANY list of
+   well-formed replies (no bound on the number of lines, on the length of a line or on the size of
+   a reply) followed by any stream k is decoded, reply by reply, into exactly that list; the
+   decoding of k starts exactly where the last encoding ends (nothing is left over, nothing of k is
+   eaten) *)
+Definition decoded (r : reply) : presult :=
+  POk (fst (fst r)) (decoded_info (snd (fst r)) (snd r)) [].
+
+Theorem decode_reply_stream_then (rs : list reply) (k : text) (f : nat) :
+  Forall reply_ok rs ->
+  parse_seq (length rs + f) (split_lines (replies_wire rs ++ k))
+  = map decoded rs ++ parse_seq f (split_lines k).
+Proof.
+  intro Hok. induction rs as [|r rs IH].
+  - reflexivity.
+  - inversion Hok as [|? ? Hr Hrest]; subst.
+    cbn [length Nat.add replies_wire flat_map map app]. rewrite <- app_assoc.
+    cbn [parse_seq]. rewrite (decode_one r (flat_map reply_wire rs ++ k) Hr).
+    fold (replies_wire rs). rewrite (IH Hrest). reflexivity.
+Qed.
+
+(* ... and when nothing follows, the stream is exhausted exactly after the last reply *)
+Theorem decode_reply_stream (rs : list reply) :
+  Forall reply_ok rs ->
+  parse_seq (S (length rs)) (split_lines (replies_wire rs)) = map decoded rs ++ [PReset].
+Proof.
+  intro Hok. rewrite <- (app_nil_r (replies_wire rs)).
+  replace (S (length rs)) with (length rs + 1)%nat by lia.
+  rewrite (decode_reply_stream_then rs [] 1 Hok). reflexivity.
+Qed.
+
 (* two commands on one stream: the second starts exactly after the reply the first stopped at *)
 Definition command_outcome (expected : list text) (last : reply) (rest : list text) : cresult :=
   match expected with
